@@ -73,6 +73,10 @@ def raw(w, spec_slots=None):
         (theta if k.endswith('theta_alpha') else state)[k] = thash(v)
     rec, attrs, vals = {}, {}, {}
     for n, m in mods:
+        for k in m._non_persistent_buffers_set:      # buffers the state_dict does not show
+            v = m._buffers.get(k)
+            if v is not None:
+                (theta if k == 'theta_alpha' else state)['np:' + n + '.' + k] = thash(v)
         pa = plain_attrs(m)
         names = sorted(set(pa) | set(m._parameters) | set(m._buffers) | set(m._modules))
         attrs[n] = tuple(names)
